@@ -28,6 +28,7 @@ func decode(b []byte) (q lorawan.PHYPayload, s string, ok bool) {
 	if err := q.UnmarshalBinary(in); err != nil {
 		return q, cq.Err, false
 	}
+	reuse.CheckIsolation(theSet, b, in, &q)
 	return q, cq.Ok(framefmt.Phy(q, framefmt.DecodedFOptsLen(b))), true
 }
 
@@ -48,6 +49,7 @@ func encode(p lorawan.PHYPayload) (b []byte, s string) {
 // a fresh decode gives (and re-encode to the received bytes just the same)
 var reused reuse.Receiver
 var nr *cq.RNG
+var theSet *cases.Set
 
 func add(s *cases.Set, b []byte, kind string) {
 	q, o, ok := decode(b)
@@ -86,6 +88,7 @@ func main() {
 	s := cases.New("C08", dir, "LW.Corr.C08",
 		"byte strings: uniform random length 0..256; every MHDR byte with typical lengths; model-guided data frames for every FOptsLen 0..15 with total lengths 7+ol-1 .. 7+ol+3 and FPort 0 / non-0 (reaches every branch of the MACPayload decoder); join-request / rejoin / join-accept / proprietary lengths around the accepted ones; single- and multi-bit mutations, truncations and extensions of valid frames. Non-trivial: strings the decoder accepts.")
 	s.ShardSize = 300
+	theSet = s
 	s.Watchdog(3 * time.Second)
 	n := 150
 	if thorough {
